@@ -108,6 +108,9 @@ pub struct Sim {
     pub events_processed: u64,
     /// nodes whose Sync frames are rewritten to one-step on the wire (Follow_Up dropped)
     pub one_step: Vec<bool>,
+    /// per node: stepsRemoved written into the Announces it transmits (emulates a clock that far
+    /// down the tree); None = untouched
+    pub announce_steps: Vec<Option<u16>>,
     /// hash of the order of processed events (distinct-interleaving evidence)
     pub order_hash: u64,
 }
@@ -131,6 +134,7 @@ impl Sim {
             panic: None,
             events_processed: 0,
             one_step: vec![],
+            announce_steps: vec![],
             order_hash: 0xcbf29ce484222325,
         }
     }
@@ -209,6 +213,15 @@ impl Sim {
                     m.hdr.set_flag(crate::refcodec::F_TWO_STEP, false);
                     m.hdr.correction = ((t & 0xffff_ffff) >> 16) as i64;
                     m.body = crate::refcodec::Body::Sync { origin: crate::refcodec::Ts { secs: (ns / 1_000_000_000) as u64, nanos: (ns % 1_000_000_000) as u32 } };
+                    m.hdr.length = None;
+                    data = m.encode();
+                }
+            }
+        }
+        if let Some(Some(steps)) = self.announce_steps.get(node).copied() {
+            if let Ok(mut m) = Msg::decode(&data) {
+                if let crate::refcodec::Body::Announce(ref mut a) = m.body {
+                    a.steps_removed = steps;
                     m.hdr.length = None;
                     data = m.encode();
                 }
